@@ -249,6 +249,13 @@ func (m *Machine) script(o *Obligation, negate bool) (string, int, map[string]bo
 	for _, s := range ss {
 		fmt.Fprintf(&sb, "(declare-const %s Int)\n", s)
 	}
+	if p.ufuns != nil {
+		sb.Reset() // uninterpreted terms present: no set-logic restriction
+		for _, s := range ss {
+			fmt.Fprintf(&sb, "(declare-const %s Int)\n", s)
+		}
+		sb.WriteString(uDecls(p.ufuns))
+	}
 	sb.WriteString(p.sb.String())
 	for _, a := range asserts {
 		sb.WriteString("(assert " + a + ")\n")
